@@ -8,7 +8,7 @@ use moka::future::Cache;
 use parking_lot::RwLock;
 use tokio::fs;
 use tokio::sync::Mutex;
-use tracing::info;
+use tracing::{info, warn};
 
 use super::{
     DiskRowset, Manifest, SecondaryStorage, StorageOptions, StorageResult, TracedStorageError,
@@ -163,14 +163,23 @@ impl SecondaryStorage {
                 }
                 return Err(TracedStorageError::not_found("table", entry.table_id.table_id));
             };
-            let disk_rowset = DiskRowset::open(
+            let disk_rowset = match DiskRowset::open(
                 table.get_rowset_path(entry.rowset_id),
                 table.columns.clone(),
                 engine.block_cache.clone(),
                 entry.rowset_id,
                 options.io_backend.clone(),
             )
-            .await?;
+            .await
+            {
+                Ok(rowset) => rowset,
+                Err(e) => {
+                    // A damaged RowSet must not make every other table unusable: keep a placeholder
+                    // that fails every read of this RowSet.
+                    warn!("failed to open rowset {}: {}", entry.rowset_id, e);
+                    DiskRowset::broken(table.columns.clone(), entry.rowset_id, e.to_string())
+                }
+            };
             changeset.push(EpochOp::AddRowSet((entry, disk_rowset)));
         }
 
